@@ -98,6 +98,22 @@ def supplied(arr, form, small):
     return arr
 
 
+def modes(vals):
+    """Per-mode values (idle, approach, climb, take-off) as a ThrustModeValues built positionally, from a dict in
+    that order, or from a dict in take-off..idle order - chosen deterministically from the values; the object is a
+    mapping keyed by mode, so the form carries no meaning."""
+    from AEIC.performance.types import ThrustMode, ThrustModeValues
+
+    v = [float(x) for x in vals]
+    form = hash(tuple(v)) % 3
+    if form == 0:
+        return ThrustModeValues(*v)
+    pairs = list(zip([ThrustMode.IDLE, ThrustMode.APPROACH, ThrustMode.CLIMB, ThrustMode.TAKEOFF], v))
+    if form == 2:
+        pairs.reverse()
+    return ThrustModeValues(dict(pairs))
+
+
 def values_for(case, t, n):
     """The values trajectory t carries in the vc_codec field set."""
     from AEIC.performance.types import ThrustModeValues
@@ -117,8 +133,8 @@ def values_for(case, t, n):
         'ts1': SpeciesValues({Species(sp): val('ts1', t, sp) for sp in sets['ts1']}),
         'ts2': SpeciesValues({Species(sp): val('ts2', t, sp) for sp in sets['ts2']}),
         'tsp': SpeciesValues({Species(sp): supplied(np.arange(n, dtype=float) + val('tsp', t, sp), form, np.float32) for sp in sets['tsp']}),
-        'tm': ThrustModeValues(t + 0.1, t + 0.2, t + 0.3, t + 0.4),
-        'tsm': SpeciesValues({Species(sp): ThrustModeValues(*(val('tsm', t, sp) + k / 8 for k in range(4))) for sp in sets['tsm']}),
+        'tm': modes((t + 0.1, t + 0.2, t + 0.3, t + 0.4)),
+        'tsm': SpeciesValues({Species(sp): modes(val('tsm', t, sp) + k / 8 for k in range(4)) for sp in sets['tsm']}),
     }
     return v
 
